@@ -29,8 +29,16 @@ def gen_meas_table(R, ctx):
         elif st == "const": v = [2.0] * n
         else: v = [None if R.random() < 0.3 else float(R.randrange(4)) for _ in range(n)]
         if st in ("cat", "fn", "cat30") and R.random() < 0.5:      # a few far-away sentinel rows, first in the table (folded into an edge leaf)
-            for r in range(R.randint(1, 4)):
-                v[r] = R.choice([999.0, -999.0, 10000.0]); st = st + "+sentinel"
+            if R.random() < 0.5:
+                for r in range(R.randint(1, 4)):
+                    v[r] = R.choice([999.0, -999.0, 10000.0])
+                st = st + "+sentinel"
+            else:                      # two nested groups of rare extreme values on one side, 1..4 rows each
+                sg = R.choice([1.0, -1.0]); r = 0
+                for val in R.sample([700.0, 5000.0, 12000.0, 90000.0], 2):
+                    for _ in range(R.randint(1, 4)):
+                        v[r] = sg * val; r += 1
+                st = st + "+sentinel2"
         cols.append(v); styles.append(st)
     ap = AnonymizationParams(salt=R.getrandbits(64).to_bytes(8, "little"))
     return {"names": [f"c{j}" for j in range(ncols)], "cols": cols, "styles": styles, "pids": None, "pid_mode": "unique", "ap": ap, "bp": BucketizationParams(), "n": n}
@@ -65,7 +73,14 @@ def stream_meas(ctx, built, ntables):
     ctx.obligation("correspondence S-meas (entropies + dependency matrix, bit-exact)", "correspondence", S.d["mismatches"] == 0, f"{S.d['mismatches']} mismatches")
 
 
-def stream_ranking(ctx):
+def rank_fp(d, k):
+    """fingerprints of the listed shortfalls of the one-to-one clause; anything lower is an unlisted failure"""
+    if k == 4 and 0.49 <= d < 0.6: return "ranking-one-to-one-4-categories-about-half"
+    if k >= 5 and 0.5 <= d < 0.6: return "ranking-one-to-one-between-0.5-and-0.6"
+    return "ranking"
+
+
+def stream_ranking(ctx, built=False):
     """support for the statistical clauses, on the real code; gross failures are reported as oracle failures"""
     from syndiffix.clustering.measures import measure_all
     from syndiffix.common import AnonymizationParams, BucketizationParams
@@ -74,7 +89,7 @@ def stream_ranking(ctx):
                    "constant column; non-trivial = every table")
     rows = []
     for _ in range(ctx.scale(4, 30)):
-        n = R.choice([1000, 2000]); k = R.choice([2, 3, 5, 8])
+        n = R.choice([1000, 2000]); k = R.choice([2, 3, 4, 5, 8])
         a = [R.randrange(k) for _ in range(n)]
         perm = list(range(k)); R.shuffle(perm)
         t = {"names": ["a", "b", "c", "u", "z"], "cols": [[float(x) for x in a], [float(perm[x]) for x in a], [float(R.randrange(k)) for _ in range(n)],
@@ -86,21 +101,81 @@ def stream_ranking(ctx):
         rec = {"n": n, "k": k, "dep(a,fn(a))": round(float(dm[0, 1]), 3), "dep(a,indep)": round(float(dm[0, 2]), 3),
                "entropy_uniform": round(float(ent[3]), 3), "log2k": round(math.log2(k), 3), "entropy_const": round(float(ent[4]), 3)}
         rows.append(rec); S.count((n, k, repr(t["ap"])), True, rec)
+        # the same with two nested groups of rare extreme codes in a, and b = an affine one-to-one function of a
+        a2 = [10.0 * (x + 1) for x in a]; r = 0; sizes = []
+        for val in R.sample([5000.0, 12000.0, 40000.0], 2):
+            c = R.randint(1, 4); sizes.append(c)
+            for _ in range(c):
+                a2[r] = val; r += 1
+        t2 = {"names": ["a", "b"], "cols": [a2, [3.5 * x + 7.25 for x in a2]], "styles": ["cat+sentinel2", "affine"], "pids": None, "pid_mode": "unique",
+              "ap": AnonymizationParams(salt=R.getrandbits(64).to_bytes(8, "little")), "bp": BucketizationParams(), "n": n}
+        F2, kind2 = TS.build_real(t2)
+        m2 = measure_all(F2); d2 = float(m2.dependency_matrix[0, 1]); rec["dep(a,affine(a)) with nested rare codes"] = round(d2, 3); rec["rare group sizes"] = sizes
+        if d2 < 0.6:
+            # F16: a rare extreme group that itself passes the low-count filter stops the flattening of the 1-dim root. That is what the proved model does
+            # as well; the failure is the listed finding only when the model reproduces the matrix bit for bit (otherwise the code has left the model).
+            agrees = None
+            if built:
+                got = TS.split_replies(drive(TS.forest_lines(t2, F2, kind2) + ["measures"], timeout=900))
+                g = got[1][0] if len(got) > 1 and got[1] else "<missing>"
+                dm2, e2 = m2.dependency_matrix, m2.entropy_1dim
+                agrees = g == " ".join(f2b(x) for x in e2) + " | " + " ".join(f2b(dm2[i, j]) for i in range(2) for j in range(2))
+            rec["model agrees"] = agrees
+            fp = "ranking-rare-extreme-group-released" if (agrees or (agrees is None and max(sizes) >= 3)) else "ranking"
+            ctx.oracle_fail(f"one-to-one affine function of a column with two groups of rare extreme codes (sizes {sizes}) scores dependence {d2:.3f} < 0.6 "
+                            f"(k={k}, n={n})", rec, fp)
         if dm[0, 1] < 0.6:
             ctx.oracle_fail(f"one-to-one function scores dependence {dm[0,1]:.3f} < 0.6 (k={k}, n={n})", rec,
-                            "ranking-one-to-one-between-0.5-and-0.6" if (dm[0, 1] >= 0.5 and k >= 5) else "ranking")
+                            rank_fp(dm[0, 1], k))
         if dm[0, 2] > 0.25: ctx.oracle_fail(f"independent column scores dependence {dm[0,2]:.3f} > 0.25 (k={k}, n={n})", rec, "ranking")
         if abs(ent[3] - math.log2(k)) > 0.15: ctx.oracle_fail(f"uniform {k}-category column has entropy {ent[3]:.3f}, log2 k = {math.log2(k):.3f}", rec, "ranking")
         if abs(ent[4]) > 1e-12: ctx.oracle_fail(f"constant column has entropy {ent[4]}", rec, "ranking")
     ctx.extra["support_ranking (statistical, not a proof)"] = rows[:6]
+    stream_typed_ranking(ctx)
+
+
+def stream_typed_ranking(ctx):
+    """the ranking clauses on typed columns, through the data convertors (timestamps with sub-second spacing, strings, ints)"""
+    from syndiffix.clustering.measures import measure_all
+    from syndiffix.common import AnonymizationParams, BucketizationParams
+    from syndiffix.forest import Forest
+    from syndiffix.counters import UniquePidCountersFactory
+    from syndiffix.microdata import get_convertor, apply_convertors
+    R = ctx.rng
+    S = ctx.stream("O-ranking-typed", "typed tables (>= 1000 rows) through get_convertor/apply_convertors: a uniform k-category timestamp column (spacing 250 us .. 1 day), "
+                   "a string and an int column that are one-to-one functions of it, an independent int column: entropy = log2 k +- 0.15, one-to-one >= 0.6, "
+                   "independent <= 0.25; non-trivial = every table")
+    for _ in range(ctx.scale(3, 16)):
+        n = R.choice([1000, 1500]); k = R.choice([2, 3, 4, 5, 8])
+        step = R.choice([pd.Timedelta(250, "us"), pd.Timedelta(100, "ms"), pd.Timedelta(1, "s"), pd.Timedelta(1, "D")])
+        base = pd.Timestamp("2021-03-04 10:11:12") + pd.Timedelta(R.randrange(10**6), "us")
+        idx = [i % k for i in range(n)]; R.shuffle(idx)
+        perm = list(range(k)); R.shuffle(perm)
+        df = pd.DataFrame({"t": [base + step * i for i in idx], "s": [f"label-{perm[i]}" for i in idx], "i": [7 * perm[i] + 3 for i in idx],
+                           "r": [R.randrange(k) for _ in range(n)]})
+        conv = [get_convertor(df, c) for c in df.columns]
+        F = Forest(AnonymizationParams(salt=R.getrandbits(64).to_bytes(8, "little")), BucketizationParams(), UniquePidCountersFactory(),
+                   pd.DataFrame({"id": range(n)}), apply_convertors(conv, df))
+        m = measure_all(F); dm, ent = m.dependency_matrix, m.entropy_1dim
+        rec = {"n": n, "k": k, "step": str(step), "entropy(t)": round(float(ent[0]), 3), "log2k": round(math.log2(k), 3), "dep(t,s)": round(float(dm[0, 1]), 3),
+               "dep(t,i)": round(float(dm[0, 2]), 3), "dep(t,indep)": round(float(dm[0, 3]), 3)}
+        S.count((n, k, str(step), str(base), repr(idx[:50])), True, rec)
+        if abs(ent[0] - math.log2(k)) > 0.15:
+            ctx.oracle_fail(f"uniform {k}-category timestamp column (spacing {step}) has entropy {ent[0]:.3f}, log2 k = {math.log2(k):.3f}", rec, "ranking")
+        for j, nm in ((1, "string"), (2, "int")):
+            if dm[0, j] < 0.6:
+                ctx.oracle_fail(f"{nm} column that is a one-to-one function of a timestamp column (spacing {step}) scores dependence {dm[0, j]:.3f} < 0.6 (k={k}, n={n})",
+                                rec, rank_fp(dm[0, j], k))
+        if dm[0, 3] > 0.25:
+            ctx.oracle_fail(f"independent column scores dependence {dm[0, 3]:.3f} > 0.25 with a timestamp column (k={k}, n={n})", rec, "ranking")
 
 
 def run(ctx, built):
     stream_meas(ctx, built, ctx.scale(10, 80))
-    stream_ranking(ctx)
+    stream_ranking(ctx, built)
 
 
 def search(ctx, seeds):
     sub = Ctx(ctx.pid, "quick", ctx.seed + 217645199)
-    stream_meas(sub, False, 12); stream_ranking(sub)
+    stream_meas(sub, False, 12); stream_ranking(sub, DRV.exists())
     ctx.oracle_failures += sub.oracle_failures
